@@ -223,7 +223,7 @@ func c18Cases(tier string) int {
 	if tier == "thorough" {
 		return 1 + 600000
 	}
-	return 1 + 20000
+	return 1 + 60000
 }
 
 func init() {
